@@ -13,8 +13,11 @@
 #include "lltdPort.h"
 #include "lltdAutomata.h"
 #include "lltdBlock.h"
+#include "lltd_esp32.h"
 
 static FILE *tr;
+static lltd_esp32_ctx_t espctx;
+static int esp_ready;
 static long lineno = 0;
 
 /* shim of the Darwin network_interface_t: exactly the fields the frame path uses.  The vif
@@ -328,6 +331,24 @@ int main(int argc, char **argv) {
                 vp_json_bytes(tr, n >= 30 ? fb + 24 : (const uint8_t *)"\0\0\0\0\0\0", 6);
                 fprintf(tr, ",\"gen\":%u,\"seq\":%u,", n >= 34 ? (fb[32] << 8 | fb[33]) : 0, n >= 32 ? (fb[30] << 8 | fb[31]) : 0);
                 log_state();
+                ev_end();
+            } else if (!strcmp(c, "ESP")) {
+                /* ESP len hex : the embedded entry point (told the length, exact-length buffer); logs the three
+                 * automata it drives before and after */
+                if (!esp_ready) { vp_cur = NULL; lltd_esp32_init(&espctx); esp_ready = 1; }
+                size_t len = (size_t)strtoul(tok[1], NULL, 0);
+                size_t n = parse_hex(tok[2], fb, sizeof fb);
+                if (len > n) len = n;
+                uint8_t *exact = malloc(len ? len : 1);
+                memcpy(exact, fb, len);
+                int m0 = espctx.mapping->current_state, s0 = espctx.session->current_state, e0 = espctx.enumeration->current_state;
+                unsigned long long ml0 = espctx.mapping->last_ts, sl0 = espctx.session->last_ts;
+                lltd_esp32_handle_frame(&espctx, exact, len);
+                free(exact);
+                ev_begin("esp");
+                fprintf(tr, "\"len\":%zu,\"op\":%d,\"m0\":%d,\"s0\":%d,\"e0\":%d,\"ml0\":%llu,\"sl0\":%llu,\"m1\":%d,\"s1\":%d,\"e1\":%d,\"nows\":%llu",
+                        len, len >= 18 ? fb[17] : -1, m0, s0, e0, ml0, sl0, espctx.mapping->current_state, espctx.session->current_state,
+                        espctx.enumeration->current_state, (unsigned long long)(vp_now_ms / 1000));
                 ev_end();
             } else if (!strcmp(c, "CLASSIFY")) {
                 /* CLASSIFY len fill hex : derive_session_event on an MTU-sized buffer */
